@@ -213,6 +213,51 @@ def runWith (flog : Nat → Nat) (resume : Nat → Bool) : Nat → Nat → Plan 
   | 0, _, s => s
   | n + 1, i, s => runWith flog resume n (i + 1) (step flog (if resume i then reload flog s else s))
 
+/-! ### the import intervals in the saved plan
+
+`to_dict` stores `gvcf_import_intervals` through `tarray(tinterval(tlocus(rg)))._convert_to_json`, `Decoder` reads them
+back with `_convert_from_json` (types.py: `tinterval`, `tlocus`). -/
+
+/-- `hl.Interval` of two `hl.Locus` (contigs as indices into the reference genome's contig list) -/
+structure Iv where
+  startContig : Nat
+  startPos : Nat
+  endContig : Nat
+  endPos : Nat
+  includesStart : Bool
+  includesEnd : Bool
+deriving DecidableEq, Repr
+
+/-- the JSON object `{"start": {"contig", "position"}, "end": {"contig", "position"}, "includeStart", "includeEnd"}` -/
+structure IvJson where
+  start : Nat × Nat
+  stop : Nat × Nat
+  includeStart : Bool
+  includeEnd : Bool
+deriving DecidableEq, Repr
+
+/-- `tinterval._convert_to_json` -/
+def encodeIv (i : Iv) : IvJson :=
+  { start := (i.startContig, i.startPos), stop := (i.endContig, i.endPos),
+    includeStart := i.includesStart, includeEnd := i.includesEnd }
+
+/-- `tinterval._convert_from_json`: `Interval(start, end, includes_start=x['includeStart'], includes_end=x['includeEnd'])` -/
+def decodeIv (j : IvJson) : Iv :=
+  { startContig := j.start.1, startPos := j.start.2, endContig := j.stop.1, endPos := j.stop.2,
+    includesStart := j.includeStart, includesEnd := j.includeEnd }
+
+/-- the intervals of `load(save(combiner))` -/
+def reloadIntervals (ivs : List Iv) : List Iv := (ivs.map encodeIv).map decodeIv
+
+/-- the closed interval `[s, e]` of contig `c`, as `calculate_even_genome_partitioning` builds it -/
+def closedIv (c : Nat) (p : Nat × Nat) : Iv := ⟨c, p.1, c, p.2, true, true⟩
+
+/-- base `p` of contig `c` lies in the interval (honouring the two `includes_*` flags) -/
+def Iv.covers (i : Iv) (c p : Nat) : Bool :=
+  i.startContig == c && i.endContig == c &&
+    (if i.includesStart then decide (i.startPos ≤ p) else decide (i.startPos < p)) &&
+    (if i.includesEnd then decide (p ≤ i.endPos) else decide (p < i.endPos))
+
 /-! ### executable floor-log for the driver (no theorem depends on it) -/
 
 def ilogAux (b : Nat) : Nat → Nat → Nat
